@@ -292,3 +292,31 @@ def producible_names():
             except Exception:  # noqa
                 pass
     return out
+
+
+# ---------------------------------------------------------------------------------------
+def field_entry_lemmas():
+    """Data type, width and resolution of every data field as pinned (spec/pinned_fields.json, recorded from the tree when the
+    framework was built - no independent source offline; detects later edits), and - independently of any transcription - every
+    module constant called P2_<n> / P2_P<n> is exactly 2**-n / 2**n (the resolutions are written as decimal literals)."""
+    import json, os, re
+    core = T()[0]
+    pin = json.load(open(os.path.join(os.path.dirname(os.path.abspath(__file__)), "pinned_fields.json")))
+    out = []
+    DF = core.RTCM_DATA_FIELDS
+    bad = []
+    for k, (typ, width, res) in pin["fields"].items():
+        e = DF.get(k)
+        ok = e is not None and e[0] == typ and e[1] == width and e[2] == res
+        if not ok:
+            out.append((f"tables.field_entry_as_pinned[{k}]", False, {"pinned": [typ, width, res], "tree": list(e[:3]) if e else None,
+                                                                   "provenance": pin["provenance"]}))
+    out.append(("tables.field_entries_as_pinned", not any(not o[1] for o in out), {"n": len(pin["fields"])}))
+    for k, v in pin["constants"].items():
+        out.append((f"api.constant[{k}]", getattr(core, k, None) == v, {"pinned": v, "tree": getattr(core, k, None)}))
+    for name in dir(core):
+        m = re.fullmatch(r"P2_(P?)(\d+)", name)
+        if m:
+            want = 2.0 ** int(m.group(2)) if m.group(1) else 2.0 ** -int(m.group(2))
+            out.append((f"tables.power_of_two_constant[{name}]", getattr(core, name) == want, {"tree": repr(getattr(core, name)), "exact": repr(want)}))
+    return out
